@@ -143,6 +143,27 @@ func proxyRuntime() []byte {
 	a.push(mFlags).op(opMLOAD).push(4).op(opSHR).push(1).op(opAND).push(1).op(opADD).push(mLoop).op(opMSTORE)
 
 	a.label("loop")
+	emitDispatch(a)
+	a.label("after") // stack: success
+	a.pushLabel("ok").op(opJUMPI)
+	// inner call failed: revert unless flags&4
+	a.push(mFlags).op(opMLOAD).push(fIgnoreFail).op(opAND).pushLabel("ok").op(opJUMPI)
+	a.push(0).push(0).op(opREVERT)
+	a.label("ok")
+	// loop--
+	a.push(1).push(mLoop).op(opMLOAD).op(opSUB).op(opDUP1).push(mLoop).op(opMSTORE)
+	a.pushLabel("loop").op(opJUMPI)
+	// then-revert?
+	a.push(mFlags).op(opMLOAD).push(fThenRevert).op(opAND).pushLabel("rev").op(opJUMPI)
+	a.op(opSTOP)
+	a.label("rev")
+	a.push(0).push(0).op(opREVERT)
+	return a.bytes()
+}
+
+// emitDispatch: performs the call described by mem[mFlags] (kind bits), mem[mTarget], payload mem[0..mem[mN]) and
+// jumps to label "after" with the success flag on the stack (falls through for CALLCODE).
+func emitDispatch(a *asm) {
 	// dispatch on kind
 	a.push(mFlags).op(opMLOAD).push(fKindMask).op(opAND) // kind
 	a.op(opDUP1).push(1).op(opEQ).pushLabel("k_delegate").op(opJUMPI)
@@ -160,20 +181,43 @@ func proxyRuntime() []byte {
 	a.pushLabel("after").op(opJUMP)
 	a.label("k_callcode").op(opPOP)
 	a.push(0).push(0).push(mN).op(opMLOAD).push(0).push(0).push(mTarget).op(opMLOAD).op(opGAS).op(opCALLCODE)
+}
+
+// Scratch of the batch contract.
+const (
+	mPtr = 0x8080
+)
+
+// batchRuntime: call data = [1 byte count] then count entries [1 byte flags][20 bytes target][2 bytes len][payload].
+// Increments storage slot 0, then performs the calls in order from this one frame (flags: bits 0-1 call kind,
+// bit 2 ignore a failing call — otherwise the whole batch reverts).
+func batchRuntime() []byte {
+	a := newAsm()
+	a.push(0).op(opSLOAD).push(1).op(opADD).push(0).op(opSSTORE)
+	a.push(1).push(mPtr).op(opMSTORE)
+	a.push(0).op(opCALLDATALOAD).push(248).op(opSHR).push(mLoop).op(opMSTORE)
+	a.label("next")
+	a.push(mLoop).op(opMLOAD).pushLabel("more").op(opJUMPI)
+	a.op(opSTOP)
+	a.label("more")
+	// flags = calldataload(ptr) >> 248
+	a.push(mPtr).op(opMLOAD).op(opCALLDATALOAD).push(248).op(opSHR).push(mFlags).op(opMSTORE)
+	// target = calldataload(ptr+1) >> 96
+	a.push(mPtr).op(opMLOAD).push(1).op(opADD).op(opCALLDATALOAD).push(96).op(opSHR).push(mTarget).op(opMSTORE)
+	// len = calldataload(ptr+21) >> 240
+	a.push(mPtr).op(opMLOAD).push(21).op(opADD).op(opCALLDATALOAD).push(240).op(opSHR).push(mN).op(opMSTORE)
+	// calldatacopy(0, ptr+23, len)
+	a.push(mN).op(opMLOAD).push(mPtr).op(opMLOAD).push(23).op(opADD).push(0).op(opCALLDATACOPY)
+	// ptr += 23 + len
+	a.push(mPtr).op(opMLOAD).push(23).op(opADD).push(mN).op(opMLOAD).op(opADD).push(mPtr).op(opMSTORE)
+	emitDispatch(a)
 	a.label("after") // stack: success
 	a.pushLabel("ok").op(opJUMPI)
-	// inner call failed: revert unless flags&4
 	a.push(mFlags).op(opMLOAD).push(fIgnoreFail).op(opAND).pushLabel("ok").op(opJUMPI)
 	a.push(0).push(0).op(opREVERT)
 	a.label("ok")
-	// loop--
-	a.push(1).push(mLoop).op(opMLOAD).op(opSUB).op(opDUP1).push(mLoop).op(opMSTORE)
-	a.pushLabel("loop").op(opJUMPI)
-	// then-revert?
-	a.push(mFlags).op(opMLOAD).push(fThenRevert).op(opAND).pushLabel("rev").op(opJUMPI)
-	a.op(opSTOP)
-	a.label("rev")
-	a.push(0).push(0).op(opREVERT)
+	a.push(1).push(mLoop).op(opMLOAD).op(opSUB).push(mLoop).op(opMSTORE)
+	a.pushLabel("next").op(opJUMP)
 	return a.bytes()
 }
 
